@@ -20,6 +20,17 @@ import tempfile
 from . import common as cm
 
 REQ = ["Base.StrX", "Sys.DBPath", "Sys.DBCompose", "Sys.DBCache", "Sys.DBWire"]
+ANCHORS = ["pyflyby._importdb:_find_etc_dirs", "pyflyby._importdb:_get_env_var", "pyflyby._importdb:_get_python_path",
+           "pyflyby._importdb:_get_st_dev", "pyflyby._importdb:_ancestors_on_same_partition",
+           "pyflyby._importdb:_expand_tripledots", "pyflyby._importdb:ImportDB.get_default",
+           "pyflyby._importdb:ImportDB._from_data", "pyflyby._importdb:ImportDB._from_code",
+           "pyflyby._importdb:ImportDB._from_filenames",
+           "pyflyby._importdb:ImportDB.__or__", "pyflyby._file:expand_py_files_from_args",
+           "pyflyby._file:Filename._from_filename", "pyflyby._file:Filename.list", "pyflyby._file:Filename.ancestors",
+           "pyflyby._importclns:ImportSet.without_imports", "pyflyby._importclns:ImportMap.without_imports",
+           "pyflyby._importclns:ImportMap._merge", "pyflyby._idents:dotted_prefixes"]
+# not anchorable with common.anchor_hashes (cached_attribute objects have no retrievable source):
+# ImportDB.by_fullname_or_import_as, Import.split - both are inside the correspondence on every run.
 ENVVARS = ("PYFLYBY_PATH", "PYFLYBY_KNOWN_IMPORTS_PATH", "PYFLYBY_MANDATORY_IMPORTS_PATH")
 
 # ---------------------------------------------------------------------------------------------
@@ -27,12 +38,22 @@ ENVVARS = ("PYFLYBY_PATH", "PYFLYBY_KNOWN_IMPORTS_PATH", "PYFLYBY_MANDATORY_IMPO
 
 KNOWN_POOL = [["pk.sub.mod", "pk.sub.mod"], ["pk.sub.x", "x"], ["pk.y", "y"], ["numpy", "np"], ["m.t1", "t1"],
               ["m", "m"], ["m.t1", "tt"], ["pk.other", "po"], ["pk.sub", "pk.sub"], ["m.sub.t2", "t2"],
-              ["q.r.s.t", "q.r.s.t"], ["pk.sub.deep.z", "z"], ["m2.t1", "t1"]]
+              ["q.r.s.t", "q.r.s.t"], ["pk.sub.deep.z", "z"], ["m2.t1", "t1"],
+              # imports whose FULL NAME is a module that a star forget names, and string-prefix look-alikes
+              ["os.path", "path"], ["os.path", "osp"], ["os.path.join", "join"], ["os.path", "os.path"],
+              ["json.dumps", "dumps"], ["js.x", "jx"], ["js", "js"], ["pk.sub", "sub"], ["pk.sub", "psub"]]
 FORGET_POOL = KNOWN_POOL + [["pk.sub", "pk.sub"], ["pk", "pk"], ["pk.*", "*"], ["pk.sub.*", "*"], ["m.*", "*"],
-                            ["q.r", "q.r"], ["q", "q"], ["q.r.s", "q.r.s"], ["m.sub", "m.sub"]]
-MAND_POOL = [["__future__.division", "division"], ["m", "m"], ["m.t1", "t1"], ["pk.y", "y"], ["numpy", "np"]]
+                            ["q.r", "q.r"], ["q", "q"], ["q.r.s", "q.r.s"], ["m.sub", "m.sub"],
+                            ["os.path.*", "*"], ["os.*", "*"], ["js.*", "*"], ["pk.sub.*", "*"], ["json.*", "*"]]
+STAR_FAMILIES = [  # (star forget, imports that must survive it, imports that must go)
+    (["os.path.*", "*"], [["os.path", "path"], ["os.path", "osp"], ["os.path", "os.path"]], [["os.path.join", "join"]]),
+    (["js.*", "*"], [["json.dumps", "dumps"], ["js", "js"]], [["js.x", "jx"]]),
+    (["pk.sub.*", "*"], [["pk.sub", "sub"], ["pk.sub", "psub"], ["pk.y", "y"]], [["pk.sub.x", "x"], ["pk.sub.deep.z", "z"]]),
+    (["os.*", "*"], [["os.path", "os.path"]], [["os.path", "path"], ["os.path.join", "join"]])]
+MAND_POOL = [["__future__.division", "division"], ["m", "m"], ["m.t1", "t1"], ["pk.y", "y"], ["numpy", "np"],
+             ["os.path", "path"], ["os.path.join", "join"], ["pk.sub", "sub"], ["js.x", "jx"]]
 CANON_POOL = [["m.t1", "m2.t1"], ["pk.y", "pk.sub.y"], ["old.name", "new.name"], ["m.t1", "m3.t1"], ["a", "b"],
-              ["pk.sub.x", "pk.x"]]
+              ["pk.sub.x", "pk.x"], ["os.path", "posixpath"], ["pk.sub", "pk.sub2"]]
 RAW_BAD = ["x = 1\n", "def f(:\n", "__forget_imports__ = 3\n", "print('hi')\n", "__canonical_imports__ = ['a']\n"]
 EXTRA = "extra12"          # a name that does not exist in the ancestors of the scratch root
 
@@ -52,6 +73,14 @@ def gen_spec(r, rich=True):
         stmts.append(["mand", [r.choice(MAND_POOL) for _ in range(r.randint(1, 2))]])
     if r.random() < .25:
         stmts.append(["canon", [r.choice(CANON_POOL) for _ in range(r.randint(1, 2))]])
+    if r.random() < .2:
+        # a star forget for a dotted module next to imports OF that module (must survive) and FROM it (must go)
+        star, keep, go = r.choice(STAR_FAMILIES)
+        stmts.append(["forget", [star]])
+        for imp in r.sample(keep, r.randint(1, len(keep))) + r.sample(go, r.randint(0, len(go))):
+            stmts.append(r.choice([["imp", imp], ["imp", imp], ["mand", [imp]]]))
+        if r.random() < .3:
+            stmts.append(["canon", [[r.choice(keep)[0], "renamed.thing"]]])
     r.shuffle(stmts)
     return {"stmts": stmts, "ident_form": r.random() < .3}
 
@@ -140,6 +169,38 @@ def gen_tree(r):
             put(ex, "e.py", mkfile(r, 1), 1)
             if r.random() < .3:
                 put(ex, r.choice(DB_MEMBERS), mkfile(r, 1), 1)
+    # symbolic links (never to an ancestor of their own location: the real walk would run until ELOOP)
+    links = []
+    if r.random() < .55:
+        team = {"dev": 1, "dir": {}}
+        put(team, "t.py", mkfile(r, 1), 1)
+        if r.random() < .6:
+            put(team, "sub/u.py", mkfile(r, 1), 1)
+        if r.random() < .3:
+            put(team, ".hid.py", mkfile(r, 1), 1)
+        put(tree, "shared/team", team, 1)
+        for d in sorted(dirs):
+            node = get(tree, d)
+            up = "../" * (d.count("/") + 2 if d else 1)
+            team_tg = r.choice(["{ROOT}/shared/team", up + "shared/team"])
+            pf = node["dir"].get(".pyflyby")
+            if pf is None and r.random() < .35:
+                node["dir"][".pyflyby"] = {"link": r.choice([team_tg[3:] if team_tg.startswith("../") else team_tg,
+                                                             "{ROOT}/shared/team/t.py", "nowhere"])}
+            elif pf is not None and "dir" in pf and r.random() < .6:
+                for nm, tg in r.sample([("team", team_tg), ("team", team_tg), ("l.py", "x.py"), ("lnk", "x.py"), ("d2.py", "sub"),
+                                        ("dang.py", "nowhere"), ("loopa", "loopb"), ("loopb", "loopa"), ("self.py", "self.py"),
+                                        ("tfile.py", "{ROOT}/shared/team/t.py"), ("up.py", "../.pyflyby/y.py")], r.randint(1, 4)):
+                    if nm not in pf["dir"]:
+                        pf["dir"][nm] = {"link": tg}
+            if EXTRA not in node["dir"] and r.random() < .15:
+                node["dir"][EXTRA] = {"link": team_tg[3:] if team_tg.startswith("../") else team_tg}
+        inner = [d for d in dirs if d]
+        if inner:
+            tgt = r.choice(inner)
+            tree["dir"]["lnkdir"] = {"link": r.choice([tgt, "{ROOT}/" + tgt, "./" + tgt + "/"])}
+            links.append("lnkdir")
+    tree["_links"] = links
     # devices: mount points (everything below gets another st_dev), possibly the outer id again further down
     k = r.random()
     if k < .3:
@@ -166,12 +227,17 @@ def get(tree, rel):
 
 
 def setdev(node, dev):
+    if "link" in node:
+        return
     node["dev"] = dev
     for ch in node.get("dir", {}).values():
         setdev(ch, dev)
 
 
-def gen_env(r, dirs):
+def gen_env(r, dirs, links=()):
+    if links and r.random() < .12:
+        l = "{ROOT}/" + r.choice(list(links))
+        return r.choice([l + "/.pyflyby", l + "/" + EXTRA, l + "/.pyflyby:-", l + "/.pyflyby/team", l + "/../.pyflyby"])
     k = r.random()
     if k < .2:
         return None
@@ -191,7 +257,10 @@ def gen_env(r, dirs):
     return ":".join(parts)
 
 
-def gen_target(r, dirs):
+def gen_target(r, dirs, links=()):
+    if links and r.random() < .25:
+        ad = "{ROOT}/" + r.choice(list(links))
+        return r.choice([ad + "/t.py", ad + "/no/such/t.py", ad, ad + "/../t.py", ad + "/.pyflyby/x.py", ad + "/./a/../t.py"])
     d = r.choice(dirs)
     ad = "{ROOT}" + ("/" + d if d else "")
     return r.choice([ad + "/t.py", ad + "/t.py", ad + "/no/such/t.py", ad, "t.py", ".", "", "a/t.py", "../t.py",
@@ -201,23 +270,29 @@ def gen_target(r, dirs):
 
 def gen_history(r, i, maxlen=4):
     tree, dirs = gen_tree(r)
+    links = tree.pop("_links")
     n = r.randint(1, maxlen)
-    base = {"cwd": r.choice(dirs), "home": "{ROOT}/home", "target": gen_target(r, dirs),
-            "env": [gen_env(r, dirs), None, None]}
+    base = {"cwd": r.choice(dirs), "home": "{ROOT}/home", "target": gen_target(r, dirs, links),
+            "env": [gen_env(r, dirs, links), None, None]}
     lookups = []
     for j in range(n):
         lk = dict(base, env=list(base["env"]))
         # change one or two components relative to the previous lookup: coherence is about interleavings
-        for what in r.sample(["cwd", "home", "target", "env", "env2", "same"], r.choice([1, 1, 2])):
+        for what in r.sample(["cwd", "home", "target", "env", "env2", "same", "swap"], r.choice([1, 1, 2])):
             if what == "cwd":
                 lk["cwd"] = r.choice(dirs)
             elif what == "home":
-                d = r.choice(dirs)
+                d = r.choice(dirs + list(links))
                 lk["home"] = "{ROOT}" + ("/" + d if d else "") + r.choice(["", "", "/"])
+            elif what == "swap":
+                # cwd and HOME exchanged: a key that mixes the two up serves the other setting's database
+                h = lk["home"][len("{ROOT}"):].strip("/")
+                if h in dirs:
+                    lk["cwd"], lk["home"] = h, "{ROOT}" + ("/" + lk["cwd"] if lk["cwd"] else "")
             elif what == "target":
-                lk["target"] = gen_target(r, dirs)
+                lk["target"] = gen_target(r, dirs, links)
             elif what == "env":
-                lk["env"][0] = gen_env(r, dirs)
+                lk["env"][0] = gen_env(r, dirs, links)
             elif what == "env2":
                 lk["env"][r.choice([1, 2])] = r.choice([None, "", "/x"])
         lookups.append(lk)
@@ -228,6 +303,32 @@ def gen_history(r, i, maxlen=4):
         etc = [e.lstrip("/") for e in etc]
     spine_dev = r.choice([1, 1, 1, 9])
     return {"kind": "history", "i": i, "tree": tree, "lookups": lookups, "etc": etc, "spine_dev": spine_dev}
+
+
+def gen_swap(r, i):
+    """cwd and HOME exchanged between two lookups with a search path that depends on both."""
+    def dbdir(names):
+        d = {"dev": 1, "dir": {}}
+        for n in names:
+            put(d, n, {"dev": 1, "file": {"stmts": [["imp", r.choice(KNOWN_POOL)]], "ident_form": False}}, 1)
+        return d
+    tree = {"dev": 1, "dir": {}}
+    for nm in ("A", "B"):
+        node = {"dev": 1, "dir": {}}
+        if r.random() < .85:
+            node["dir"][".pyflyby"] = dbdir(["x.py"]) if r.random() < .5 else \
+                {"dev": 1, "file": {"stmts": [["imp", r.choice(KNOWN_POOL)]], "ident_form": False}}
+        if r.random() < .7:
+            node["dir"][EXTRA] = dbdir(["e.py"])
+        tree["dir"][nm] = node
+    tree["dir"]["proj"] = {"dev": 1, "dir": {}}
+    env = r.choice(["~/.pyflyby:./" + EXTRA, "./.pyflyby:~/" + EXTRA, "-", None, "~/" + EXTRA + ":-", "./" + EXTRA + ":-",
+                    "./.pyflyby", "~/.pyflyby", "~/" + EXTRA + ":./" + EXTRA])
+    target = r.choice(["{ROOT}/proj/t.py", "{ROOT}/proj", "{ROOT}/A/t.py", "{ROOT}/proj/no/such/t.py"])
+    a = {"cwd": "A", "home": "{ROOT}/B", "target": target, "env": [env, None, None]}
+    b = {"cwd": "B", "home": "{ROOT}/A", "target": target, "env": [env, None, None]}
+    lookups = r.choice([[a, b], [b, a], [a, b, a], [a, a, b]])
+    return {"kind": "history", "i": i, "tree": tree, "lookups": lookups, "etc": [], "spine_dev": 1}
 
 
 def gen_partition(r, i):
@@ -288,8 +389,10 @@ def gen_cases(ctx, n):
     for i in range(n):
         r = cm.rng(ctx.seed, "c12", i)
         k = i % 20
-        if k < 14:
+        if k < 13:
             cases.append(gen_history(r, i))
+        elif k < 14:
+            cases.append(gen_swap(r, i))
         elif k < 16:
             cases.append(gen_partition(r, i))
         elif k < 19:
@@ -321,12 +424,16 @@ def gen_exhaustive(ctx, ntrees, alphabet=5, maxlen=4):
 # ---------------------------------------------------------------------------------------------
 # implementation side (runs in a worker process with pyflyby from REPO)
 
-def materialize(node, path, devmap, files):
+def materialize(node, path, devmap, files, root=None):
+    root = root or path
+    if "link" in node:
+        os.symlink(node["link"].replace("{ROOT}", root), path)
+        return
     devmap[path] = node["dev"]
     if "dir" in node:
         os.makedirs(path, exist_ok=True)
         for name, ch in node["dir"].items():
-            materialize(ch, os.path.join(path, name), devmap, files)
+            materialize(ch, os.path.join(path, name), devmap, files, root)
     else:
         with open(path, "w") as f:
             f.write(render(node["file"]))
@@ -423,10 +530,12 @@ def c_parsed(p):
     return "(inr %s)" % c_dbfile(p)
 
 
-def c_tree(node, rel, parsed):
+def c_tree(node, rel, parsed, root=""):
+    if "link" in node:
+        return "(Link %s)" % cm.cstr(node["link"].replace("{ROOT}", root))
     if "dir" in node:
         return "(Dir %s %s)" % (cm.cN(node["dev"]), cm.clist(
-            [cm.cpair(cm.cstr(n), c_tree(ch, (rel + "/" + n) if rel else n, parsed)) for n, ch in node["dir"].items()]))
+            [cm.cpair(cm.cstr(n), c_tree(ch, (rel + "/" + n) if rel else n, parsed, root)) for n, ch in node["dir"].items()]))
     return "(File %s %s)" % (cm.cN(node["dev"]), c_parsed(parsed[rel]) if parsed is not None else "(inl [])")
 
 
@@ -440,7 +549,7 @@ def c_env(e):
 
 def full_tree_expr(case, root, parsed):
     """The scratch tree hung under its real ancestors ("/" ... dirname(root))."""
-    expr = c_tree(case["tree"], "", parsed)
+    expr = c_tree(case["tree"], "", parsed, root)
     comps = [x for x in root.split("/") if x]
     for name in reversed(comps):
         expr = "(Dir %s [(%s, %s)])" % (cm.cN(case.get("spine_dev", 1)), cm.cstr(name), expr)
@@ -484,10 +593,13 @@ def safe(p):
 
 
 class FS(object):
+    """The generator's tree as a path -> node table; symbolic links are followed the way POSIX path
+    resolution does (independent restatement: string paths, an explicit work stack)."""
+
     def __init__(self, case, root):
-        self.nodes, self.kids = {}, {}
+        self.raw, self.kids, self.root = {}, {}, root
         for a in spine_of(root):
-            self.nodes[a] = ("d", case.get("spine_dev", 1), None)
+            self.raw[a] = ("d", case.get("spine_dev", 1), None)
         p = root
         while p != "/":
             self.kids.setdefault(os.path.dirname(p), []).append(os.path.basename(p))
@@ -495,29 +607,69 @@ class FS(object):
         self._add(case["tree"], root)
 
     def _add(self, node, path):
-        if "dir" in node:
-            self.nodes[path] = ("d", node["dev"], None)
+        if "link" in node:
+            self.raw[path] = ("l", node["link"].replace("{ROOT}", self.root), None)
+        elif "dir" in node:
+            self.raw[path] = ("d", node["dev"], None)
             self.kids[path] = sorted(node["dir"])
             for n, ch in node["dir"].items():
                 self._add(ch, posixpath.join(path, n))
         else:
-            self.nodes[path] = ("f", node["dev"], node["file"])
+            self.raw[path] = ("f", node["dev"], node["file"])
+
+    def resolve(self, path, strict):
+        """Real path of `path` (None: missing component when strict, or too many links)."""
+        cur, todo, hops = "/", list(reversed(path.split("/"))), 0
+        while todo:
+            n = todo.pop()
+            if n in ("", "."):
+                continue
+            if n == "..":
+                cur = posixpath.dirname(cur)
+                continue
+            nxt = posixpath.join(cur, n)
+            node = self.raw.get(nxt)
+            if node is not None and node[0] == "l":
+                hops += 1
+                if hops >= 40:
+                    return None
+                if node[1].startswith("/"):
+                    cur = "/"
+                todo.extend(reversed(node[1].split("/")))
+                continue
+            if node is None and strict:
+                return None
+            cur = nxt
+        return cur
+
+    def stat(self, p):
+        r = self.resolve(p, True)
+        return None if r is None else self.raw.get(r)
 
     def isdir(self, p):
-        return self.nodes.get(p, ("", 0, 0))[0] == "d"
+        st = self.stat(p)
+        return st is not None and st[0] == "d"
 
     def isfile(self, p):
-        return self.nodes.get(p, ("", 0, 0))[0] == "f"
+        st = self.stat(p)
+        return st is not None and st[0] == "f"
+
+    def dev(self, p):
+        st = self.stat(p)
+        return None if st is None else st[1]
+
+    def spec(self, p):
+        return self.stat(p)[2]
 
     def walk(self, p, out):
-        for n in self.kids.get(p, []):
+        for n in self.kids.get(self.resolve(p, True), []):
             f = posixpath.join(p, n)
             if not safe(f) or n.startswith(".") or n == "__pycache__":
                 continue
-            if self.isfile(f):
+            if self.isfile(f):                       # a link to a file counts as a file ...
                 if n.endswith(".py"):
                     out.append(f)
-            else:
+            elif self.isdir(f):                      # ... a link to a directory is searched
                 self.walk(f, out)
 
 
@@ -529,14 +681,15 @@ def ancestors(p):
 
 
 def oracle_target_dir(fs, lk):
-    tp = posixpath.normpath(posixpath.join(lk["cwd"], lk["target"]))
+    tp = fs.resolve(posixpath.join(lk["cwd"], lk["target"]), False)      # Path.resolve()
     cands = ([tp] if fs.isdir(tp) else []) + ancestors(tp)[1:]
     d = [c for c in cands if safe(c)][0]
     if lk["target"].startswith("/dev") and safe(lk["cwd"]):
         d = lk["cwd"]
     while not fs.isdir(d):
         d = posixpath.dirname(d)
-    return d
+    real = fs.resolve(d, False)
+    return real if safe(real) else d
 
 
 def oracle_files(fs, lk, etc):
@@ -560,11 +713,11 @@ def oracle_files(fs, lk, etc):
         if p.startswith(".../"):
             dev, same = None, []
             for a in ancestors(d):
-                if a not in fs.nodes:
+                if fs.dev(a) is None:
                     continue
                 if dev is None:
-                    dev = fs.nodes[a][1]
-                if fs.nodes[a][1] != dev:
+                    dev = fs.dev(a)
+                if fs.dev(a) != dev:
                     break
                 same.append(a)
             for a in reversed(same):                       # nearest last
@@ -664,7 +817,7 @@ def oracle_history(ctx, c, im):
             if fr["kind"] != "err":
                 ctx.violation("path_semantics", c, {"lookup": j, "what": "a malformed PYFLYBY_PATH was accepted", "fresh": fr})
             continue
-        specs = [fs.nodes[f][2] for f in want[1]]
+        specs = [fs.spec(f) for f in want[1]]
         if fr["kind"] == "err":
             if not any("raw" in s for s in specs):
                 ctx.violation("path_semantics", c, {"lookup": j, "what": "unexpected error", "fresh": fr, "files": want[1]})
@@ -773,9 +926,14 @@ def compare(ctx, cases, impl, index, model):
                 k1 = any(k[0] == "1" and k[2:] == tail for k in st["keys"])
                 ctx.bump("hit_via_dir_key" if k1 else "hit_via_file_list_key")
         ctx.bump("history_len_%d" % len(kinds))
+        fs = FS(c, im["root"])
+        if any(v[0] == "l" for v in fs.raw.values()):
+            ctx.bump("tree_with_symlinks")
         for s in im["cached"]:
             if s["kind"] == "loaded":
                 ctx.bump("files_loaded_%s" % min(len(s["files"]), 5))
+                if any(fs.resolve(f, False) != f for f in s["files"]):
+                    ctx.bump("loaded_through_symlink")
             if s["kind"] != "err" and s["forget"]:
                 ctx.bump("db_with_forget")
         nontriv = "hit" in kinds and any(s["kind"] != "err" and s["known"] for s in im["cached"])
@@ -785,8 +943,9 @@ def compare(ctx, cases, impl, index, model):
 
 
 def run(ctx):
-    n = int(os.environ.get("VERIF_C12_N", 400 if ctx.quick else 4000))
-    ctx.coverage["rule"] = ("cases from one seeded PRNG: 70% lookup histories + 10% device-boundary chains (1-4 lookups; cwd, HOME, target and the three "
+    cm.check_anchors(ctx, ANCHORS)
+    n = int(os.environ.get("VERIF_C12_N", (400 if ctx.quick else 4000) * getattr(ctx, "scale", 1)))
+    ctx.coverage["rule"] = ("cases from one seeded PRNG: 65% lookup histories (55% of the trees with symbolic links: to directories and files, relative/absolute, dangling, looping) + 5% cwd/HOME-exchange histories + 10% device-boundary chains (1-4 lookups; cwd, HOME, target and the three "
                             "environment variables change between lookups) in generated trees with .pyflyby files/dirs at several "
                             "levels, hidden/__pycache__/unsafe entries, device boundaries; 15% in-memory compositions (+ __or__); "
                             "5% _find_etc_dirs trees; thorough adds all sequences up to length 4 over 5 queries on 2 trees; "
@@ -795,7 +954,9 @@ def run(ctx):
     ctx.assumptions += [
         "the text of a database file enters the model as the four lists the real _from_code extracted from it on this run "
         "(oracle argument; checked against the generator's term on every file)",
-        "no symbolic links in the trees (realpath = abspath); $HOME is set; PYFLYBY_PATH entries do not start with '//'",
+        "symbolic links: no link points to an ancestor of its own location (the real walk would recurse until ELOOP) and "
+        "no looping link lies on a target / cwd path (Path.resolve raises); cwd is a real path; $HOME is set; "
+        "PYFLYBY_PATH entries do not start with '//'",
         "the ancestors of the scratch root contain no .pyflyby / %s entry (checked on every case)" % EXTRA,
         "_find_etc_dirs() is injected per case (memoized process constant); the real function is tied separately on generated trees",
         "st_dev is injected by wrapping os.stat (device boundaries cannot be created in the sandbox)",
